@@ -6,6 +6,8 @@ import (
 	"bytes"
 	"encoding/hex"
 	"fmt"
+	"runtime"
+	"time"
 
 	"a0verif/harness/dev"
 	"a0verif/plan"
@@ -21,6 +23,7 @@ type HistPlan struct {
 }
 
 type HistResult struct {
+	ForcedGC   int              `json:"forced_gc,omitempty"`
 	Outcomes   []plan.Outcome   `json:"outcomes"`
 	Delivered  []string         `json:"delivered,omitempty"` // per op: hex of the bytes the device delivered during that op
 	Reads      [][]plan.ReadRec `json:"reads,omitempty"`     // per op
@@ -80,6 +83,12 @@ func RunHist(p *HistPlan, d *dev.Dev, identity func(lazyOK bool) (bool, string))
 		} else {
 			res.Delivered = append(res.Delivered, "")
 			res.Reads = append(res.Reads, nil)
+		}
+		if op.GC { // memory pressure: finalizers, weak references and pools meet what the caller still holds
+			runtime.GC()
+			runtime.GC()
+			time.Sleep(2 * time.Millisecond)
+			res.ForcedGC++
 		}
 		checkID(i)
 		if d != nil && len(d.Log) > 0 && strings.HasPrefix(d.Log[len(d.Log)-1].Err, "panic-") {
